@@ -38,6 +38,8 @@ theorem semsAux_chainOK (os : List AnyObj) (h : ∀ o ∈ os, GoodLayer o) (pare
     | l2 x =>
       exact l2_writesOnlyAt { parents := parents, inners := infos os } x ho.1 ho.2
     | ip x => exact absurd ho id
+    | ip6 x => exact absurd ho id
+    | icmp x => exact absurd ho id
     | tr x => exact absurd ho id
     | app x => exact absurd ho id
     | wifi x => exact absurd ho id
